@@ -54,8 +54,8 @@ impl Subject for SOrswot {
     fn merge(s: &mut St, o: St) {
         s.merge(o)
     }
-    fn edit(s: &St, actor: Option<u8>, e: EditArgs, _aux: &mut Aux) -> Option<(Self::Op, Sem, String)> {
-        let m = idx(e.a, MEMBERS) as u8;
+    fn edit(s: &St, actor: Option<u8>, e: EditArgs, aux: &mut Aux) -> Option<(Self::Op, Sem, String)> {
+        let m = if aux.wide && e.e % 4 != 0 { 0 } else { idx(e.a, MEMBERS) as u8 };
         let mut kind = set_edit_kind(e.kind, actor.is_some());
         // removing something absent is legal but mostly idle: usually turn it into an add
         if actor.is_some() && e.d % 4 != 0 {
